@@ -915,6 +915,9 @@ func TestVerifC09Batch(t *testing.T) {
 	for i := 0; i < 10; i++ {
 		for _, tr := range []string{"mock", "rpc"} {
 			plan := []string{"send", "send", "send", "send", "watch", "watch", "watch", "round-all", "watch", "round-all", "close"}
+			if i%5 == 4 { // more transactions awaited at once than one receipt batch holds
+				plan = []string{"bigsend", "watch", "watch", "round-all", "watch", "round-all", "close"}
+			}
 			caseNo := out.n
 			pre := c09In{Tag: "plan", Transport: tr, Plan: plan, Steps: []c09Step{}}
 			out.mu.Lock()
